@@ -85,6 +85,8 @@ func value(id string, sz int) []byte {
 	return b
 }
 
+const emptyID = "EMPTY"
+
 func valueID(v []byte) string {
 	if i := bytes.IndexByte(v, '|'); i >= 0 {
 		return string(v[:i])
@@ -172,6 +174,14 @@ func (x *runner) call(g, i int, op Op) (ev Ev) {
 		if err != nil {
 			ev.Err = errClass(err) + ": " + clip(err.Error(), 80)
 		}
+	case "setempty":
+		// an empty, non-nil value is a value (not a delete); all empty values are the same value
+		ev.ID = emptyID
+		err := x.db.SetCF(cf, key, []byte{})
+		ev.Ret = x.now()
+		if err != nil {
+			ev.Err = errClass(err) + ": " + clip(err.Error(), 80)
+		}
 	case "setnil":
 		err := x.db.SetCF(cf, key, nil)
 		ev.Ret = x.now()
@@ -191,7 +201,12 @@ func (x *runner) call(g, i int, op Op) (ev Ev) {
 		case err == nil && e != nil:
 			ev.Found = true
 			ev.Out = valueID(e.Value)
-			if !bytes.Equal(e.Key, key) {
+			if len(e.Value) == 0 {
+				ev.Out = emptyID
+				if !bytes.Equal(e.Key, key) {
+					ev.Bad = fmt.Sprintf("entry key %q != requested %q", e.Key, key)
+				}
+			} else if !bytes.Equal(e.Key, key) {
 				ev.Bad = fmt.Sprintf("entry key %q != requested %q", e.Key, key)
 			} else if want := value(ev.Out, len(e.Value)); !bytes.Equal(want, e.Value) {
 				ev.Bad = fmt.Sprintf("value bytes damaged (len %d): %q", len(e.Value), clip(string(e.Value), 60))
